@@ -17,7 +17,9 @@ package main
 import (
 	"fmt"
 	"net"
+	"os"
 	"sync"
+	"sync/atomic"
 	"time"
 
 	"github.com/256dpi/gomqtt/packet"
@@ -186,7 +188,7 @@ func bounded(d time.Duration, f func() error) (chan callRes, func() callRes) {
 }
 
 func (x *c03) stalledSend(kind, trigger string, big bool) {
-	x.n++
+	x.bump()
 	n := x.n
 	c := x.c
 	c.Emit("case %d stall kind=%s trigger=%s big=%s", n, kind, trigger, hx.B01(big))
@@ -355,7 +357,7 @@ func (x *c03) stalledSend(kind, trigger string, big bool) {
 // must fail within the bound.  A timeout error counts against the implementation only if the
 // previous packet had arrived less than 0.8 x timeout before (a slow machine cannot fake it).
 func (x *c03) timeoutRearmed(kind string) {
-	x.n++
+	x.bump()
 	n := x.n
 	c := x.c
 	c.Emit("case %d rearm kind=%s", n, kind)
@@ -447,4 +449,37 @@ func (x *c03) finishPanics() {
 	for _, p := range takePanics() {
 		x.c.Emit("direct c19_nopanic 0 FAIL a harness goroutine panicked: %s", p)
 	}
+}
+
+// ---------------------------------------------------------------- the harness' own watchdog
+
+var progressAt int64 // unix nanoseconds of the last scenario start
+var progressN int64
+
+// bump starts a new scenario: numbers it and tells the watchdog that the harness is alive
+func (x *c03) bump() {
+	x.n++
+	atomic.StoreInt64(&progressN, int64(x.n))
+	atomic.StoreInt64(&progressAt, time.Now().UnixNano())
+}
+
+// startWatchdog: every library call a scenario makes on the script's own goroutine is expected to
+// return; if one does not (a lock that is never released, a write nobody reads), no later scenario
+// could run and the process would sit there without a verdict.  After `limit` without a new scenario
+// the watchdog writes the verdict line for the scenario that is stuck and ends the run.
+func (x *c03) startWatchdog(limit time.Duration) {
+	atomic.StoreInt64(&progressAt, time.Now().UnixNano())
+	go func() {
+		for {
+			time.Sleep(500 * time.Millisecond)
+			idle := time.Duration(time.Now().UnixNano() - atomic.LoadInt64(&progressAt))
+			if idle > limit {
+				n := atomic.LoadInt64(&progressN)
+				x.c.Emit("direct c19_nohang %d FAIL a call made by scenario %d on the connection under test has not returned for %s (the scenario's case line, if any, precedes this line); run ended by the harness watchdog", n, n, idle.Round(time.Second))
+				x.c.Out.Flush()
+				fmt.Printf("stat watchdog_fired=1\n")
+				os.Exit(0)
+			}
+		}
+	}()
 }
